@@ -17,7 +17,7 @@ def sh(cmd, cwd, env=None, timeout=1800):
 
 
 def copy_repo(d):
-    for x in ("src", "Cargo.toml", "Cargo.lock"):
+    for x in ("src", "Cargo.toml", "Cargo.lock", "README.md", "CHANGELOG.md"):
         s = os.path.join("/repo", x)
         if os.path.isdir(s):
             shutil.copytree(s, os.path.join(d, x))
